@@ -76,6 +76,7 @@ type c17W struct {
 	pendMsg   [2]atomic.Pointer[api.Message]
 	pendAt    [2]atomic.Int64
 	pushCB    atomic.Bool
+	churned   [2]atomic.Bool // duel: the writer's connection was dropped and set up again by this duellist
 	nApproval atomic.Int64
 	nResult   atomic.Int64
 	cbRuns    atomic.Int64
